@@ -69,6 +69,7 @@ def run(case, tape=None):
 
         def rank_fn(comm, rank):
             f, constants = phys.setup_f(comm, ckw, 'v_parallel')
+            phys.check_forced(f, g)
             pipe = phys.Pipeline(comm, f, constants, edge=case['edge'])
             dt = pipe.halfStep * case['dtsign']
             f.getAllData()[:] = cm.local(F, f.getLayout('v_parallel'))
